@@ -23,7 +23,53 @@ CHECKS = {
             "Bounded pools (2-3 vertices + None, <=2-3 links, arity <=3); states merged on the full vars() "
             "of every object (uids dropped) via a 128-bit digest; deepcopy-based successor generation is "
             "validated by re-building every expanded state from its history."),
+    "C02": (H, "DESIGN.md section 4 C02",
+            "explicit-state BFS over membership-call histories on the real objects, to fixpoint; invariant + ordered reference model on every transition",
+            "model_checking",
+            "All histories of the four membership calls (from either side) over pools of vertices and universes "
+            "(universes are members too, also of themselves) are explored to fixpoint; both constructors with "
+            "every argument sequence (repetitions, list/tuple/generator/None) up to a length bound are applied in "
+            "every reached state. After every call the symmetry / no-duplicate invariant and equality with the "
+            "reference model's insertion-ordered lists are checked; removing a non-member must raise and change nothing.",
+            "Bounded pools (<=3 vertices, <=3 universes, <=1 constructed object per history, |S|<=3); quick tier "
+            "checks constructor calls as leaf transitions (not expanded further)."),
+    "C03": (H, "DESIGN.md section 4 C03 / 3.3",
+            "explicit-state BFS to fixpoint; conformance of every transition to a relational reference model",
+            "model_checking",
+            "Same state graphs as C01 plus pools with universes; for every transition the observed (post-state, "
+            "return value), read through public accessors, must be one of the outcomes the plain reference model "
+            "allows for (pre-state, op): this is the frame condition (exactly the documented lists change).",
+            "Reference model slack documented in DESIGN 3.3 (own-list position on re-assignment; calls on links "
+            "with other than two ends are unspecified and only subject to C01). Bounded pools."),
+    "C17": (H, "DESIGN.md section 4 C17",
+            "explicit-state BFS to fixpoint over construct/add_mapping/drop/clear histories, reference model carried along, every transition replayed from scratch",
+            "model_checking",
+            "All histories over pools of classes (own metaclass, shared metaclass object, subclasses, custom hash "
+            "function) and argument keys (-1/-2, keyword permutations) are explored to fixpoint; per step the "
+            "identity of the returned object, its type, the __init__ count and the complete check/get_all table "
+            "of every class are compared with a per-class key->instance model.",
+            "Bounded pools (<=3 classes, <=6 argument keys); states merged on the real metaclass/class dict "
+            "attributes; constructor arguments stored on instances are not part of the state."),
+    "C18": (H, "DESIGN.md section 4 C18",
+            "explicit-state BFS to fixpoint over construct/clear histories with a reference model",
+            "model_checking",
+            "All histories of constructions (argument shapes incl. one that makes __init__ raise, a class whose "
+            "__init__ constructs another singleton) and targeted/global clears over a class, a subclass chain and "
+            "two independent classes; identity, __init__ count, first-call arguments and the live-class table are "
+            "compared with the model after every call.",
+            "Bounded pool of 4-5 classes and 4-5 argument shapes; the state space is small (which classes are "
+            "live), the fixpoint is reached at depth <= 5."),
+    "C19": (H, "DESIGN.md section 4 C19",
+            "explicit-state BFS to fixpoint over assignment histories; bijection invariant on every state",
+            "model_checking",
+            "All histories of U.laws = L|None, L.applies_to = U|None and Universe(laws=L|None) over a pool of "
+            "universes and law sets: every assignment must succeed and `U.laws is L <=> L.applies_to is U` must "
+            "hold in every reached state; plus the complete product of constructor inputs for the rule attributes "
+            "(read back exactly, not assignable, before and after binding / moving).",
+            "Bounded pool (2 universes + <=2 constructed, <=3 free law sets); UniverseLaws(applies_to=...) is "
+            "not in the property's alphabet and is not driven."),
 }
+
 
 NOT_YET = "check under construction in this session (see DESIGN.md for the planned exhaustive check)"
 
